@@ -137,12 +137,12 @@ var c17Deliveries2 = []c17delivery{
 }
 
 type c17prog struct {
-	text       string
-	faultRow   int // 1-based row of the fault's first line in the text
-	formFrom   int // rows of the top-level form containing the fault
-	formTo     int
-	descr      string
-	blocks     [][2]int // 1-based row ranges of the top-level blocks (fillers, fault form, later forms), in order
+	text     string
+	faultRow int // 1-based row of the fault's first line in the text
+	formFrom int // rows of the top-level form containing the fault
+	formTo   int
+	descr    string
+	blocks   [][2]int // 1-based row ranges of the top-level blocks (fillers, fault form, later forms), in order
 }
 
 func init() {
@@ -360,7 +360,7 @@ func init() {
 		common := fmt.Sprintf("%d faults (undefined symbol, throw, failing builtin, failed assert, call of a non-function; single- and multi-line) x every wrapper path of length 0..2 over %d wrappers (let, if-then, if-else, do, vector literal, map value, cond, ->, and, or, fn called in place, call argument, try/finally) x fillers before (0..1 quick / 0..2 thorough) and after (0..1) from %d multi-line forms/comments/blank lines/raw strings; routes: one do form, same-line do, load-file from a file (wrapper paths of length <=1), after leading blank lines, every top-level form read and evaluated on its own, the same text read again under a second module name", len(c17Faults), nW, len(c17Fillers))
 		return &vf.Check{
 			ID: "C17", Level: "model_checking",
-			Rule: "every program of the bounded layout space (the generator knows the row range of every top-level form and the row where the planted fault starts) is read under a module name and evaluated; when the error carries a position it must name the module, lie within the rows of the top-level form that textually contains the fault and cover the fault's first row; non-trivial = the error carried a position",
+			Rule:        "every program of the bounded layout space (the generator knows the row range of every top-level form and the row where the planted fault starts) is read under a module name and evaluated; when the error carries a position it must name the module, lie within the rows of the top-level form that textually contains the fault and cover the fault's first row; non-trivial = the error carried a position",
 			Assumptions: []string{"errors without a position are not judged (several macro-built forms carry none)", "delivery through map/apply/swap! is a separate family so that its verdict does not mask the direct deliveries"},
 			Families: []*vf.Family{
 				mkFamily("direct-and-called-later", c17Deliveries, common+"; deliveries: direct, function defined earlier and called later, closure returned by a function"),
